@@ -1,6 +1,6 @@
 #!/bin/bash
 # usage: tools/r6_eval.sh <ID> <n: "" or 2> [slot]  — confirm a delivered seed in its worktree, then run every rule module on repo+patch
 id=$1; n=$2; slot=${3:-12}
-/verif/tools/verify_seed.sh $id "$n" > /tmp/r6/$id$n.verify 2>&1
-SLOT=$slot python3 /verif/tools/run_patch.py /tmp/seed/$id/patch$n.diff > /tmp/r6/$id$n.rules 2>&1
-echo "$(tail -1 /tmp/r6/$id$n.verify) || $(tail -1 /tmp/r6/$id$n.rules)" > /tmp/r6/$id$n.summary
+/verif/tools/verify_seed.sh $id "$n" > ${R_OUT:-/tmp/r6}/$id$n.verify 2>&1
+SLOT=$slot python3 /verif/tools/run_patch.py /tmp/seed/$id/patch$n.diff > ${R_OUT:-/tmp/r6}/$id$n.rules 2>&1
+echo "$(tail -1 ${R_OUT:-/tmp/r6}/$id$n.verify) || $(tail -1 ${R_OUT:-/tmp/r6}/$id$n.rules)" > ${R_OUT:-/tmp/r6}/$id$n.summary
